@@ -39,10 +39,19 @@ type SendHook func(from uint16, msg []byte, bcast bool, to uint16) []byte
 // DKG runs a complete key generation among n real instances wired synchronously. hook (optional)
 // rewrites outgoing messages. It returns the stored data and error per party.
 func DKG(backend string, n, t, msgLen int, hook SendHook, timeout time.Duration) (map[uint16][]byte, map[uint16]error) {
+	return DKGWrap(backend, n, t, msgLen, hook, nil, timeout)
+}
+
+// DKGWrap is DKG with an optional wrapper around each instance (a deviating participant that needs
+// more than a rewrite of single messages, e.g. holding a message back until a later one is known).
+func DKGWrap(backend string, n, t, msgLen int, hook SendHook, wrap func(id uint16, kg tss.KeyGenerator) tss.KeyGenerator, timeout time.Duration) (map[uint16][]byte, map[uint16]error) {
 	parties := IDs(n)
 	inst := map[uint16]tss.KeyGenerator{}
 	for _, id := range parties {
 		inst[id] = NewKG(backend, id, msgLen)
+		if wrap != nil {
+			inst[id] = wrap(id, inst[id])
+		}
 	}
 	for _, id := range parties {
 		id := id
